@@ -84,6 +84,7 @@ func (c C19) Run(t *tape.Tape, opt core.RunOpt) (res core.Result) {
 	// the resolver keeps the Subscription object of a subscriber and hands it
 	// back when that subscriber subscribes again after it was removed
 	w.ReuseSub = t.Bool(1, 4)
+	w.NilEvents = t.Bool(1, 3)
 	if t.Bool(1, 4) {
 		w.ResolverReenters = 1 + t.Draw(2)
 	}
